@@ -26,7 +26,8 @@ Inductive obs :=
 | SawVal (v : val)       (* x = yield d  received a value *)
 | SawPlain (v : val)     (* x = yield <plain value> received it back *)
 | SawExc (e : err)       (* an except clause caught e *)
-| Mark (n : nat).
+| Mark (n : nat)
+| Cancelled (d : nat).   (* (environment) the canceller of Deferred d was called *)
 
 Inductive gen :=
 | GReturn (v : val)
@@ -67,24 +68,41 @@ Fixpoint denote (s : stmt) (kn : gen) (kr : err -> gen) (kret : val -> gen) : ge
 Definition gen_of (s : stmt) : gen := denote s (GReturn VNone) GRaise GReturn.
 
 (** ---- the driver ---- *)
+(** what a Deferred's canceller does when called: nothing (cancel() then fails it with CancelledError), fires it
+    with a value, fires it with a failure *)
+Inductive cbeh := CNothing | CSucceed (z : Z) | CFail (n : nat).
+Definition cancel_outcome (c : cbeh) : outcome :=
+  match c with CNothing => Exc ECancelled | CSucceed z => Val (VInt z) | CFail k => Exc (EUser k) end.
+
 Record world := mkw {
   fired : list nat;        (* Deferreds that have fired *)
+  cancelled : list nat;    (* ... of which: fired by their canceller, because the function was cancelled while
+                              waiting on them (newest first) *)
   consumed : list nat;     (* Deferreds whose result the driver has already taken (they now hold None) *)
-  seen : list obs          (* ghost: the function's own log, newest first *)
+  seen : list obs          (* ghost: the function's own log and the canceller calls, newest first *)
 }.
 
 Definition mem (i : nat) (l : list nat) : bool := existsb (Nat.eqb i) l.
 
 Inductive status :=
-| Finished (r : outcome)                       (* status.deferred fired with r *)
+| Finished (r : outcome)                       (* the returned Deferred has the function's outcome r *)
 | Suspended (d : nat) (k : outcome -> gen).    (* status.waitingOn = D[d] *)
+
+(** schedule: Deferred d fires on its own / the user cancels the returned Deferred *)
+Inductive sop := SFire (d : nat) | SCancel.
+
+(** the outcome Deferred d fires with: its canceller's doing if it is one of [c], its predetermined outcome otherwise *)
+Definition eff (assign : nat -> outcome) (canc : nat -> cbeh) (c : list nat) (d : nat) : outcome :=
+  if mem d c then cancel_outcome (canc d) else assign d.
 
 Section Drive.
   Variable assign : nat -> outcome.
+  Variable canc : nat -> cbeh.
 
-  Definition current (w : world) (d : nat) : outcome := if mem d (consumed w) then Val VNone else assign d.
-  Definition consume (d : nat) (w : world) : world := mkw (fired w) (d :: consumed w) (seen w).
-  Definition say (t : obs) (w : world) : world := mkw (fired w) (consumed w) (t :: seen w).
+  Definition current (w : world) (d : nat) : outcome :=
+    if mem d (consumed w) then Val VNone else eff assign canc (cancelled w) d.
+  Definition consume (d : nat) (w : world) : world := mkw (fired w) (cancelled w) (d :: consumed w) (seen w).
+  Definition say (t : obs) (w : world) : world := mkw (fired w) (cancelled w) (consumed w) (t :: seen w).
 
   Fixpoint drive (g : gen) (w : world) : status * world :=
     match g with
@@ -103,23 +121,50 @@ Section Drive.
     let '(st, w) := p in
     if mem d (fired w) then (st, w)
     else
-      let w1 := mkw (d :: fired w) (consumed w) (seen w) in
+      let w1 := mkw (d :: fired w) (cancelled w) (consumed w) (seen w) in
       match st with
       | Suspended d' k => if Nat.eqb d d' then drive (k (current w1 d)) (consume d w1) else (st, w1)
       | Finished _ => (st, w1)
       end.
 
-  Definition start (pre : list nat) (g : gen) : status * world := drive g (mkw pre [] []).
-  Definition run (pre : list nat) (g : gen) (sched : list nat) : status * world :=
-    fold_left (fun p d => fire d p) sched (start pre g).
-
-  (** ---- Spec: the same function called synchronously, every awaited Deferred standing for its outcome ---- *)
-  Fixpoint sync (g : gen) (cons : list nat) (log : list obs) : outcome * list obs :=
-    match g with
-    | GReturn v => (Val v, log)
-    | GRaise e => (Exc e, log)
-    | GLog t g' => sync g' cons (t :: log)
-    | GYieldV v k => sync (k (Val v)) cons log
-    | GYieldD d k => sync (k (if mem d cons then Val VNone else assign d)) (d :: cons) log
+  (** the user cancels the returned Deferred.  While the function is suspended:
+      [_addCancelCallbackToDeferred] errbacks it with the internal marker, [_handleCancelInlineCallbacks]
+      replaces [status.deferred] by a fresh Deferred (to which the returned one is now chained) and calls
+      [status.waitingOn.cancel()]: the awaited Deferred's canceller runs, the Deferred fires (with CancelledError
+      unless the canceller fired it), and the generator is resumed with that outcome from inside the cancel call.
+      After the function has finished: the returned Deferred has a non-Deferred result, cancel() does nothing.
+      (The chain returned Deferred -> fresh status.deferred -> ... is not represented: [Finished r] stands for
+      "the newest status.deferred fired with r and the returned Deferred, chained to it, has r".) *)
+  Definition cancel (p : status * world) : status * world :=
+    let '(st, w) := p in
+    match st with
+    | Finished _ => (st, w)
+    | Suspended d k =>
+        let w1 := mkw (d :: fired w) (d :: cancelled w) (consumed w) (Cancelled d :: seen w) in
+        drive (k (current w1 d)) (consume d w1)
     end.
+
+  Definition step (p : status * world) (o : sop) : status * world :=
+    match o with SFire d => fire d p | SCancel => cancel p end.
+
+  Definition start (pre : list nat) (g : gen) : status * world := drive g (mkw pre [] [] []).
+  Definition run (pre : list nat) (g : gen) (sched : list sop) : status * world :=
+    fold_left step sched (start pre g).
 End Drive.
+
+(** ---- Spec: the same function called synchronously, every awaited Deferred standing for the outcome [out d]
+    it (eventually) has; [cons]: Deferreds already awaited once (they hold None) ---- *)
+Definition push (t : obs) (log : list obs) : list obs :=
+  match t with Cancelled _ => log | _ => t :: log end.
+
+Fixpoint sync (out : nat -> outcome) (g : gen) (cons : list nat) (log : list obs) : outcome * list obs :=
+  match g with
+  | GReturn v => (Val v, log)
+  | GRaise e => (Exc e, log)
+  | GLog t g' => sync out g' cons (push t log)
+  | GYieldV v k => sync out (k (Val v)) cons log
+  | GYieldD d k => sync out (k (if mem d cons then Val VNone else out d)) (d :: cons) log
+  end.
+
+(** the function's own observations (canceller calls are the environment's, not the function's) *)
+Definition own (l : list obs) : list obs := fold_right push [] l.
